@@ -9,6 +9,7 @@ From DC Require Adjustable.Model.
 From DC Require Graph.UltraGraph Graph.Spec Graph.ShortestPath.
 From DC Require Context.Model Context.Spec.
 From DC Require Collections.Model.
+From DC Require Causal.Model Causal.Entry Causal.Check.
 
 Extraction Language OCaml.
 
@@ -22,4 +23,5 @@ Extraction "model.ml"
   Adjustable.Model.adjustable_model_entry Adjustable.Model.adjustable_check_entry
   Graph.UltraGraph.ugraph_model_entry Graph.Spec.ugraph_check_entry Graph.ShortestPath.spath_check_entry
   Context.Model.context_model_entry Context.Spec.context_check_entry
-  Collections.Model.collections_model_entry Collections.Model.collections_check_entry.
+  Collections.Model.collections_model_entry Collections.Model.collections_check_entry
+  Causal.Entry.causal_model_entry Causal.Check.c01_check_entry Causal.Check.c10_check_entry.
